@@ -34,6 +34,9 @@ def demo_dest(d):
     m = re.search(r'cp \S*demo\S*\.go\s+/tmp/seed2?-[a-z0-9]+/(\S+?\.go)', notes)
     if m:
         return demo, m.group(1)
+    m = re.search(r'cp \S*demo\S*\.go\s+((?:internal|pkg|cmd)/\S+?\.go)', notes)
+    if m:
+        return demo, m.group(1)
     # fall back: package clause of the demo
     src = open(os.path.join(d, demo[0])).read()
     pk = re.search(r'^package (\w+)', src, re.M).group(1)
@@ -49,7 +52,9 @@ def main():
         fresh_worktree()
         demo, dest = demo_dest(d)
         pkg = "./" + os.path.dirname(dest)
-        touched = sorted({"./" + os.path.dirname(l[6:].strip()) for l in open(os.path.join(d, "patch.diff")) if l.startswith("+++ b/") and l.strip().endswith(".go")})
+        # packages touched by the patch (templates and other embedded files count for the package of their directory)
+        touched = sorted({"./" + os.path.dirname(l[6:].strip()) for l in open(os.path.join(d, "patch.diff")) if l.startswith("+++ b/")})
+        touched = [t for t in touched if any(f.endswith(".go") for f in os.listdir(os.path.join(WT, t)))] or ["./internal/configs/..."]
         # 1. demo on HEAD
         shutil.copy(os.path.join(d, demo[0]), os.path.join(WT, dest))
         rc, out = sh("go test %s%s -run TestDemo -count=1" % ("-race " if os.environ.get("SEED_RACE") else "", pkg), cwd=WT)
